@@ -26,9 +26,11 @@ CFG = {
                   "for every word vector through all three readers (and bytes->words->bytes for every multiple-of-8 byte "
                   "string); the little-endian layout equals the arithmetic definition; at a = 0 the fallible reader answers "
                   "None exactly for lengths not divisible by 8 and none of the readers panics on a multiple-of-8 length. "
-                  "Partial: the property's 'any alignment' clause is REFUTED for a != 0 (the model panics exactly when "
-                  "a != 0, the slice is non-empty and its length is a multiple of 8 — proved, witness replayed: finding F8), "
-                  "so any_alignment holds only as any_alignment_partial (a = 0). Rebuilt-index equality is proved only "
+                  "bytes_to_words_vec (copying, fix b9692bb) equals the address-free spec at EVERY offset (vec_any_alignment, "
+                  "full). Partial: for the two zero-copy readers bytes_to_words / try_bytes_to_words the 'any alignment' clause "
+                  "is REFUTED for a != 0 (they panic exactly when a != 0, the slice is non-empty and its length is a multiple "
+                  "of 8 - proved, witness replayed: open finding F8), so it holds only as any_alignment_partial (a = 0). "
+                  "Rebuilt-index equality is proved only "
                   "as 'the constructors receive identical (words, len)'; that the real indexes are functions of (words, len) "
                   "is C01/C04/C07 and is checked here implementation-vs-implementation by the harness.",
     "level_note": "bytemuck::cast_slice's alignment rule is assumed external behaviour (modelled from bytemuck 1.25 "
@@ -44,7 +46,8 @@ CFG = {
     "generated": [],
     "allow_bv_decide": True,
     "required_theorems": ["SV.Props.C31.words_bytes_words", "SV.Props.C31.bad_length_only_partial",
-                          "SV.Props.C31.any_alignment_partial", "SV.Props.C31.any_alignment_full_statement_refuted"],
+                          "SV.Props.C31.any_alignment_partial", "SV.Props.C31.any_alignment_full_statement_refuted",
+                          "SV.Props.C31.vec_any_alignment"],
     "nontrivial": _c31_nontrivial,
     "canon": _c31_canon,
     "rule": "request = one conversion (word vector, or byte string + alignment offset) or one index rebuilt from its "
